@@ -78,6 +78,13 @@ Theorem C20_conjunction_wrong_only_for_mixed_elements : forall a b,
 Proof. exact conjunction_differs_iff. Qed.
 Print Assumptions C20_conjunction_wrong_only_for_mixed_elements.
 
+(* the call wrappers' constructors and conversion functions (no conditional explicit-specifier: constant scripts, the content
+   is the harness comparison of op explw with libstdc++) *)
+Theorem C20_wrapper_constructors_implicit_as_specified :
+  wrapper_ctors_m = wrapper_ctors_spec /\ wrapper_ctors_etl_m = wrapper_ctors_etl_spec.
+Proof. split; reflexivity. Qed.
+Print Assumptions C20_wrapper_constructors_implicit_as_specified.
+
 (* the whole case function of op expl *)
 Theorem C20_explicitness_cases : forall site es, expl_case_m site es = expl_case_s site es.
 Proof. exact case_refines. Qed.
